@@ -64,7 +64,7 @@ structure Checkpoint where
   status : Status
   votes : KMap
   rewards : KMap
-  deriving Repr, Inhabited
+  deriving Repr, Inhabited, DecidableEq
 
 structure Validator where
   pubKey : Key
@@ -191,7 +191,7 @@ inductive Outcome (α : Type)
   | ok (a : α)
   | err          -- errIncreaseCheckpoint / ErrWrongCoinbaseTransaction
   | panic        -- index out of range, integer divide by zero
-  deriving Repr
+  deriving Repr, DecidableEq
 
 /-- `applyValidatorReward(block)` with the subsidy `validatorReward()` as a parameter -/
 def applyValidatorReward (rewards : KMap) (b : CBlock) (subsidy : Nat) : Outcome KMap :=
